@@ -431,3 +431,46 @@ static void extendForMix(Rng &r, RouterGenCfg &g, bool forC20) {
 static Json mixNudge(Rng &r, const std::string &tier, bool) { return genNudgeSession(r, tier); }
 static MixGenRegistrar mgn(mixNudge);
 static struct InstallMixExt { InstallMixExt() { extendRouterCfgForMix = extendForMix; } } installMixExt;
+
+// ---------------------------------------------------------------- C20 frame clauses (end-of-world check over the recorded history)
+static void frameTwinCheck(World &w) {
+    if (!w.armed("C20")) return;
+    for (size_t bi = 0; bi < w.sessions.size(); bi++) {
+        RouterSession *B = dynamic_cast<RouterSession *>(w.sessions[bi]);
+        if (!B || !B->spec["cfg"].has("twin")) continue;
+        long of = B->spec["cfg"]["twin"].i("of", -1);
+        if (of < 0 || of >= (long)w.sessions.size()) continue;
+        RouterSession *A = dynamic_cast<RouterSession *>(w.sessions[(size_t)of]);
+        if (!A || A->dead || B->dead) continue;
+        const Json &fr = B->spec["cfg"]["twin"]["frame"];
+        bool translate = fr.str("kind", "") == "translate";
+        size_t nt = std::min(A->txnCosts.size(), B->txnCosts.size());
+        for (size_t t = 0; t < nt; t++) {
+            for (auto &kv : A->txnCosts[t]) {
+                auto itb = B->txnCosts[t].find(kv.first);
+                if (itb == B->txnCosts[t].end()) continue;
+                w.probe(translate ? "frame.translated-route-compared" : "frame.symmetric-cost-compared");
+                double ca = kv.second, cb = itb->second;
+                bool costSame = std::fabs(ca - cb) <= 1e-6 * std::max(1.0, std::fabs(ca));
+                Violation v; v.prop = "C20"; v.clause = "frame"; v.session = (int)bi; v.op = -1;
+                if (!costSame) {
+                    v.sig = translate ? "translation-changes-route-cost" : "symmetry-changes-route-cost";
+                    v.detail = fmt("transaction %zu conn %d: cost %.9f vs %.9f (%s %s, frame %s)", t, kv.first, ca, cb, A->ortho ? "ortho" : "poly", translate ? "translate" : "sym", fr.dump().c_str());
+                    w.violate(v); return;
+                }
+                if (translate) {
+                    const std::vector<Pt> &ra = A->txnRoutes[t][kv.first], &rb = B->txnRoutes[t][kv.first];
+                    bool same = ra.size() == rb.size();
+                    double dx = fr.num("dx", 0), dy = fr.num("dy", 0), tol = A->ortho ? 1e-9 : 0;
+                    for (size_t i = 0; same && i < ra.size(); i++) if (std::fabs(ra[i].x + dx - rb[i].x) > tol || std::fabs(ra[i].y + dy - rb[i].y) > tol) same = false;
+                    if (!same) {
+                        v.sig = "translation-changes-route-among-equal-cost-routes";
+                        v.detail = fmt("transaction %zu conn %d: same cost %.9f but a different route after translating by (%g,%g)", t, kv.first, ca, dx, dy);
+                        w.violate(v); return;
+                    }
+                }
+            }
+        }
+    }
+}
+static EndInvariantRegistrar eir1(frameTwinCheck);
